@@ -61,7 +61,9 @@ def gen(r, tier, i):
             # a process whose first-listed port is a glob port wired through a sub-topology
             'feeder': r.choice([None, None, r.choice([0.5, 1.0])]),
             # a store declared with a branch-level _emit by one process, further variables in and below it by another
-            'branch_emit': r.choice([None, None, r.choice([0.5, 1.0])])}
+            'branch_emit': r.choice([None, None, r.choice([0.5, 1.0])]),
+            # overlapping ports with update dictionaries that the process keeps and returns again
+            'nester': r.choice([None, None, r.choice([0.5, 1.0])])}
 
 
 def run_grammar(spec, V):
@@ -222,6 +224,21 @@ def run_perm(spec, V):
         def next_update(self, timestep, states):
             return {'agents': {a: {'food': 1} for a in states['agents']}, 'stock': {'level': -len(states['agents'])}}
 
+    class Nester(Process):
+        """Two ports whose targets overlap two levels down (cell -> ncell, carrying the sub-store pool; pool ->
+        ncell/pool); the update dictionaries are built once and returned at every call."""
+        def ports_schema(self):
+            return {'cell': {'count': {'_default': 0, '_emit': True}, 'pool': {'x': {'_default': 0, '_emit': True}}},
+                    'pool': {'y': {'_default': 0, '_emit': True}}}
+
+        def calculate_timestep(self, states):
+            return self.parameters['ts']
+
+        def next_update(self, timestep, states):
+            if not hasattr(self, 'cached'):
+                self.cached = {'cell': {'count': 1, 'pool': {'x': 101}}, 'pool': {'y': 1010}}
+            return self.cached
+
     class Reporter(Process):
         """Declares its store with a branch-level _emit flag."""
         def ports_schema(self):
@@ -255,6 +272,8 @@ def run_perm(spec, V):
             procs['census'] = Census({'ts': spec['census']})
         if spec.get('feeder'):
             procs['feeder'] = Feeder({'ts': spec['feeder']})
+        if spec.get('nester'):
+            procs['nester'] = Nester({'ts': spec['nester']})
         if spec.get('branch_emit'):
             procs['reporter'] = Reporter({'ts': spec['branch_emit']})
             procs['interior'] = Interior({'ts': spec['branch_emit']})
@@ -265,6 +284,8 @@ def run_perm(spec, V):
             topo['grower'] = {'pool': ('pool',), 'book': ('u', 'book')}
             topo['census'] = {'pool': ('pool',), 'report': ('report',)}
         init = {'s': {'acc': 3}, 't': {'sum2': 1}}
+        if spec.get('nester'):
+            topo['nester'] = {'cell': ('ncell',), 'pool': ('ncell', 'pool')}
         if spec.get('branch_emit'):
             topo['reporter'] = {'cell': ('bcell',)}
             topo['interior'] = {'cell': ('bcell',), 'internal': ('bcell', 'internal'), 'leaf': ('bcell', 'lv')}
